@@ -463,7 +463,7 @@ RT_PROPS = {
     "C04": dict(profiles=["mix", "clone", "churn", "query"], ops={"drop", "destroy", "clone", "createw", "create", "iterd"}, summary=False),
     "C06": dict(profiles=["query", "mix", "grow"], ops={"iter", "iterb", "rows"}, summary=True),
     "C07": dict(profiles=["query", "mix", "events"], ops={"iterd", "probe"}, summary=True),
-    "C08": dict(profiles=["churn", "grow", "mix", "clone"], ops={"create", "createw", "preset"}, summary=False),
+    "C08": dict(profiles=["churn", "overflow", "grow", "mix", "clone"], ops={"create", "createw", "preset"}, summary=False),
     "C09": dict(profiles=["mix", "query", "churn", "clone"], ops={"todirect", "probe", "iter", "iterb", "iterd", "find", "findb", "destroy", "write"}, summary=True),
     "C12": dict(profiles=["grow", "churn", "mix"], ops={"new", "create", "createw", "destroy", "dump", "iterd"}, summary=True),
     "C13": dict(profiles=["clone", "mix"], ops={"clone", "switch", "probe", "rows", "events", "dump", "drop", "create", "createw", "destroy"}, summary=True),
